@@ -145,6 +145,8 @@ def rewrites(node, rng):
         if k == "atom":
             out.append(("parens", replace_at(node, path, [[("(", "open"), p, (")", "close")]])))
             out.append(("side_effect", replace_at(node, path, [p, (" ", "ws"), ("[0]", "atom")])))
+            # a block whose body is a sequence (its separators update the block's private copy of `$`, nothing else)
+            out.append(("side_effect_seq", replace_at(node, path, [p, (" ", "ws"), (rng.choice(["[1 ; 2]", "[ 1\n\n2 ]", "[$ ; 7 ; 8]"]), "atom")])))
     # a comment / annotation next to a blank line at either end of the program
     out.append(("leading_comment_blank", [("@@ header" + rng.choice(["\n\n\n", "\n\n\n\n", "\n \n\n"]), "ws")] + node))
     out.append(("leading_annotation_blank", [("@note" + rng.choice(["\n\n", " \n\n", "\n\n\n"]), "ws")] + node))
@@ -328,9 +330,11 @@ def run(tier, seed):
                 if name.endswith("_blank"):
                     s0, s1 = strip_end_separators(s0, tts), strip_end_separators(s1, tts)
                 extra = {"parens": 2, "side_effect": 3}.get(name, 0)
+                if name == "side_effect_seq":
+                    extra = len(s1) - len(s0) if len(s1) - len(s0) in (5, 7) else -1
                 it = iter(s1)
                 if len(s1) != len(s0) + extra or not all(t in it for t in s0):
-                    if name in ("remove_ws", "parens", "side_effect"):
+                    if name in ("remove_ws", "parens", "side_effect", "side_effect_seq"):
                         # gluing characters together can legitimately re-tokenise (`5 . 5` -> `5.5`): rewrite not applicable
                         stats[name + ":not_applicable"] += 1
                         continue
@@ -345,7 +349,7 @@ def run(tier, seed):
                 what = None
                 if not ("nodes" in p1 and "instrs" in p1):
                     what = "the rewritten program is no longer accepted (%s)" % res[:60]
-                elif name != "side_effect" and shape(p0, defs) != shape(p1, defs):
+                elif name not in ("side_effect", "side_effect_seq") and shape(p0, defs) != shape(p1, defs):
                     what = "parse tree changed: %s -> %s" % (shape(p0, defs)[:150], shape(p1, defs)[:150])
                 else:
                     # final value (and error class) on both data implementations, ignoring step counts
